@@ -44,7 +44,7 @@ let label_of (tok : string) : label =
 
 let monitors (h : event list) : string =
   let l = [ ("one_live", mon_one_live h); ("heartbeat", mon_heartbeat h);
-            ("backoff", mon_backoff h); ("leave", mon_leave h) ] in
+            ("backoff", mon_backoff h); ("leave", mon_leave_full h) ] in
   match List.filter (fun (_, b) -> not b) l with
   | [] -> "ok"
   | bad -> String.concat "+" (List.map fst bad)
@@ -162,15 +162,17 @@ let eval_soak (toks : string list) : string =
   | bad -> String.concat "+" (List.map fst bad)
 
 let eval_wire () : string =
-  match run (init O) f5_witness with
+  match run (init O) f5_scenario with
   | None -> "STUCK"
   | Some s ->
     let count p = List.length (List.filter p s.hist) in
-    Printf.sprintf "find=%d join=%d sync=%d leave=%d closed=%d"
-      (count (function HCoordReq -> true | _ -> false))
+    let left = List.fold_left (fun acc e -> match e with HLeaveReq m -> "member-" ^ string_of_int (int_of_nat m) | _ -> acc) "-" s.hist in
+    Printf.sprintf "find=%d join=%d sync=%d leave=%d:%s closed=%d"
+      (* FindCoordinator is sent by nextGeneration's coordinator() and by leaveGroup's *)
+      (count (function HCoordReq | HLeaveReq _ | HLeaveUnreach _ -> true | _ -> false))
       (count (function HJoinReq _ -> true | _ -> false))
       (count (function HSyncReq _ -> true | _ -> false))
-      (count (function HLeaveReq _ -> true | _ -> false))
+      (count (function HLeaveReq _ -> true | _ -> false)) left
       (count (function HCloseRet _ -> true | _ -> false))
 
 let eval (op : string) (a : string list) : string =
